@@ -8,7 +8,9 @@ import (
 	"crypto/x509"
 	"crypto/x509/pkix"
 	"encoding/pem"
+	"fmt"
 	"math/big"
+	"strings"
 	"time"
 )
 
@@ -114,13 +116,14 @@ type PKI struct {
 	Server        *Ident
 	Intermediate  *Ident // signed by CA, CN = the rule's name
 	// client identities
-	Right      *Ident // right CA, right name
-	WrongName  *Ident // right CA, wrong name
-	SANName    *Ident // right CA, wrong common name, but the rule's name (and a wildcard covering it) among its DNS alternative names
-	Expired    *Ident // right CA, right name, validity ended before the bubble epoch
-	SelfSigned *Ident // right name, self-signed
-	Foreign    *Ident // right name, foreign CA
-	ViaInter   *Ident // wrong leaf name, chained through the intermediate that carries the right name
+	Right      *Ident   // right CA, right name
+	WrongName  *Ident   // right CA, wrong name
+	NearNames  []*Ident // right CA, common names that differ from the rule's name only by case, a trailing dot, a space, a NUL, one more or one less character
+	SANName    *Ident   // right CA, wrong common name, but the rule's name (and a wildcard covering it) among its DNS alternative names
+	Expired    *Ident   // right CA, right name, validity ended before the bubble epoch
+	SelfSigned *Ident   // right name, self-signed
+	Foreign    *Ident   // right name, foreign CA
+	ViaInter   *Ident   // wrong leaf name, chained through the intermediate that carries the right name
 	RuleName   string
 }
 
@@ -146,6 +149,9 @@ func GetPKI() *PKI {
 	p.Foreign = newIdent("foreign", p.RuleName, false, p.ForeignCA, nb, na, 9)
 	p.ViaInter = newIdent("viainter", "intruder.verif", false, p.Intermediate, nb, na, 10)
 	p.ViaInter.Chain = [][]byte{p.ViaInter.DER, p.Intermediate.DER}
+	for i, cn := range []string{strings.ToUpper(p.RuleName), strings.ToUpper(p.RuleName[:1]) + p.RuleName[1:], p.RuleName + ".", " " + p.RuleName, p.RuleName + "\x00", "x" + p.RuleName, p.RuleName[:len(p.RuleName)-1], strings.Replace(p.RuleName, "i", "\u0131", 1)} {
+		p.NearNames = append(p.NearNames, newIdent(fmt.Sprintf("near%d", i), cn, false, p.CA, nb, na, int64(20+i)))
+	}
 	p.SANName = newIdentSAN("sanname", "intruder.verif", []string{p.RuleName, "*.verif", "localhost"}, false, p.CA, nb, na, 11)
 	pki = p
 	return p
